@@ -38,7 +38,7 @@ CHECKS = {
  "C14": ("5.14", "Generated small models (degenerate vertices, ties, redundant rows, two-phase starts, a fully degenerate class, a class with one badly scaled column) and the classical cycling instances are stepped pivot by pivot; after every step the invariants (equivalent system, unit basis columns, non-negative basic solution satisfying the initial equalities, monotone objective, consistent current value) are checked, the stop verdict is compared with the exact optimum of the original model, the driver must stay within its limit.",
          "Trusted: f64 invariant checks with 1e-6/1e-7 tolerances; stop verdicts are judged against the exact optimum of the original model (the canonical tableau carries f64 noise); covers the pivot sequences the implementation produces.",
          "property-based testing: invariant checking over generated pivot histories + exact oracle at the stop"),
- "C15": ("5.15", "Generated MILPs (small general ones, 15-28 item knapsacks, knapsacks rescaled to 1e4 / 1e6 / 1e-2 / 1e-3 objective magnitudes, near-tied "pick k of n" selections) crossed with time limits, MIP gaps (valid and invalid) and deterministic node limits through the guarded hook, via the function and the builder: every returned solution must be feasible and self-consistent, Optimal only within the gap of the exact optimum (rational B&B / dynamic programming), invalid options rejected.",
+ "C15": ("5.15", "Generated MILPs (small general ones, 15-28 item knapsacks, knapsacks rescaled to 1e4 / 1e6 / 1e-2 / 1e-3 objective magnitudes, near-tied pick-k-of-n selections) crossed with time limits, MIP gaps (valid and invalid) and deterministic node limits through the guarded hook, via the function and the builder: every returned solution must be feasible and self-consistent, Optimal only within the gap of the exact optimum (rational B&B / dynamic programming), invalid options rejected.",
          "Trusted: exact optimum oracles; the oracle does not depend on where the clock stopped the search, so timing only affects which runs are interrupted.",
          "property-based testing: generated models x option settings + exact optimum oracle + certificate check"),
  "C17": ("5.17", "Generated linear models (all domain kinds, tiny/large (up to 1e30, beyond the 64-bit integers)/negative-zero numbers, offsets, named/unnamed rows incl. names equal to generated ones) exported with to_lp_format() and read back by an independent CPLEX-LP reader; everything is compared field by field with exact f64 equality.",
